@@ -140,6 +140,9 @@ structure Input where
   overwrite : Bool     -- install: `CLIInstallOptions.Overwrite`
   trusted : Bool       -- verify: the signing chain's root is in the trust store (false: authenticity will fail)
   fs : List Node       -- the world before the first call
+  cwd : Text           -- working directory of the process (absolute); matters when `root` is a relative path
+  path : List Text     -- directories at the front of the process' PATH. The manager never consults the PATH,
+                       -- so the model ignores it; the worlds hold executables `notation-<name>` there
   history : List Step  -- earlier steps on the same manager object; the observation is that of `op`, made afterwards
   deriving Repr, FromJson, ToJson
 
@@ -428,8 +431,15 @@ def stateAfter (i : Input) : List Step → List Node
   | [] => i.fs
   | s :: r => stateAfter { i with fs := fsAfter i s } r
 
+/-- a relative plugin root is relative to the working directory: `filepath.Join` is lexical, and so is
+the kernel's resolution of the cleaned result when no symbolic link is on the way, hence all the
+manager does with `root` it does with `Join(cwd, root)` -/
+def absRoot (i : Input) : Text := if isRooted i.root then i.root else join [i.cwd, i.root]
+
 /-- the input the observed operation effectively sees -/
-def eff (i : Input) : Input := { i with fs := stateAfter i i.history, history := [] }
+def eff (i : Input) : Input :=
+  let j := { i with root := absRoot i }
+  { j with fs := stateAfter j j.history, history := [] }
 
 def run (i : Input) : Obs := runOp (eff i)
 
